@@ -14,6 +14,11 @@ func VerifC45_vector32() {
 	}
 	s := VectorString32(v)
 	verifAssert(len(s) == 4*n, "4 bytes per element")
+	for i := 0; i < n; i++ {
+		for k := 0; k < 4; k++ {
+			verifAssert(s[4*i+k] == byte(bits[i]>>(8*uint(k))), "float32 is packed little-endian")
+		}
+	}
 	back := ToVector32(s)
 	verifAssert(len(back) == n, "same element count")
 	for i := range back {
@@ -32,6 +37,11 @@ func VerifC45_vector64() {
 	}
 	s := VectorString64(v)
 	verifAssert(len(s) == 8*n, "8 bytes per element")
+	for i := 0; i < n; i++ {
+		for k := 0; k < 8; k++ {
+			verifAssert(s[8*i+k] == byte(bits[i]>>(8*uint(k))), "float64 is packed little-endian")
+		}
+	}
 	back := ToVector64(s)
 	verifAssert(len(back) == n, "same element count")
 	for i := range back {
